@@ -10,6 +10,8 @@ from vlib import phys_common as pc
 
 PID = "C11"
 PANEL = [(0.1, 4.0), (0.15, 2.0), (0.1, 5.0), (0.12, 3.0), (0.2, 1.0), (0.08, 6.0), (0.1, 3.0)]
+# short-fetch seas peaking above the default fmax of the first guess (0.5 Hz), and seas just above the onset of breaking
+PANEL2 = [(0.57, 0.2), (0.6, 0.25), (0.65, 0.2), (0.7, 0.18), (0.2, 0.78), (0.2, 0.85), (0.6, 0.15)]
 
 
 def run(tier):
@@ -34,11 +36,12 @@ def run(tier):
             bal = create_balance(gname, dname)
             for N in ([24] if quick else [16, 24, 36]):
                 dirs = [j * 360.0 / N for j in range(N)]
-                for bi_, B in enumerate([1, 4, -7] if quick else [1, 2, 5, 8, -7]):
+                for bi_, B in enumerate([1, 4, -7, -107] if quick else [1, 2, 5, 8, -7, -107]):
                     f = f_log if (bi_ + len(gname + dname)) % 2 else f_lin
                     vds, depths = [], []
                     panel = B < 0
-                    B = abs(B)
+                    panel_list = PANEL2 if B < -100 else PANEL
+                    B = abs(B) % 100
                     for b in range(B):
                         fp = rng.uniform(0.1, 0.25)
                         # steep enough for non-zero dissipation: Hs ~ 0.2..0.3 * g/(2 pi fp)^2 / ... (fully developed and younger seas)
@@ -46,7 +49,7 @@ def run(tier):
                         if panel:
                             # fixed panel of mature seas whose balance closes at light winds (2..5 m/s for st6), far below the first
                             # guess from the equilibrium range: the solver has to travel through the whole bracket search
-                            fp, hs = PANEL[b]
+                            fp, hs = panel_list[b]
                             f = f_lin
                         vds.append(pc.sea(f, dirs, fp, hs, 40.0 if panel else rng.uniform(0, 360), 30.0 if panel else rng.uniform(25, 45)))
                         depths.append(np.inf if panel else rng.choice([np.inf, np.inf, 40.0]))
@@ -68,6 +71,10 @@ def run(tier):
                     with_rate = (bi_ % 2 == 1) if quick else rng.random() < 0.5
                     # rate of change of a turning and growing sea: (spectrum rotated by two bins - spectrum) / 1 h + growth
                     rates = [(np.roll(np.asarray(v), 2, axis=1) - np.asarray(v)) / 3600.0 + 1e-5 * np.asarray(v) for v in vds]
+                    if not panel and not with_rate and (bi_ == 0 or rng.random() < 0.5):
+                        # a sea abating in place (no bin grows): dE/dt = -E / 24 h
+                        with_rate = True
+                        rates = [-np.asarray(v) / (24 * 3600.0) for v in vds]
                     dEdt = pc.spectrum(f, dirs, rates, depths) if with_rate else None
                     ctx = {"pair": "%s/%s" % (gname, dname), "N": N, "batch": B, "rate_of_change": with_rate}
                     # the balance the estimate has to close is evaluated with NEW source-term objects: the estimate of the long-lived
@@ -144,6 +151,15 @@ def run(tier):
         chk.set("scans_with_a_single_sign_change", nsingle[0])
         if nsingle[0] == 0:
             chk.machinery("no scan of the balance showed a single sign change: the non-degeneracy clause was not exercised")
+        # histories of one long-lived balance (BalanceSession.tla behaviours): evaluations interleaved with parameter updates
+        from vlib import balance_session as bs
+        behs = bs.tlc_behaviours(chk, "c11", quick, chk.seed)
+        nb_ = 0
+        for pair_ in (("st4", "st4"), ("st4", "st6")):
+            nb_ += bs.replay(chk, behs, pair_, "C11")
+        chk.add("spec_traces_replayed", len(behs))
+        chk.set("balance_session_evaluations_compared", nb_)
+        evals += nb_
         chk.set("evaluations", evals)
         chk.set("distinct_nontrivial", len(distinct))
         chk.assume("the specification decides: zero dissipation => zero wind, and - from the sign vector of the balance scanned on u = 2,4,...,40 m/s with the "
